@@ -110,7 +110,7 @@ Clauses(o) ==
       THEN UNION { LET p == o.obs.preFacts[e]  q == o.obs.postFacts[e] IN
                      (IF p.keyId # "" /\ q.keyId # p.keyId THEN {"keyReplaced"} ELSE {})
                 \cup (IF q.certKeyId # q.keyId THEN {"certKeyMismatch"} ELSE {})
-                \cup (IF p.hasRequest /\ ~p.hasPrivate /\ (q.hasPrivate \/ ~q.hasRequest) THEN {"requestNotKept"} ELSE {})
+                \cup (IF p.hasRequest /\ ~p.hasPrivate /\ (q.hasPrivate \/ ~q.hasRequest \/ q.reqSha # p.reqSha) THEN {"requestNotKept"} ELSE {})
                    : e \in Completed(o) }
       ELSE {})
   \cup
